@@ -307,3 +307,154 @@ example : (Build.buildMulti id (fun _ => true)
   rfl
 
 end TCV.C13NM
+
+/-! ## names are determined by `repr_name_without_namespace` for clean configs -/
+
+namespace TCV.C13NM
+open TCV TCV.Config TCV.Build TCV.BuildNM TCV.Names
+
+theorem splitNsAux_colonfree : ∀ (t cur : Str), ':' ∉ t → splitNsAux t cur = [cur.reverse ++ t]
+  | [], cur, _ => by simp [splitNsAux]
+  | c :: r, cur, h => by
+    have hc : c ≠ ':' := fun e => h (e ▸ List.mem_cons_self ..)
+    have hr : ':' ∉ r := fun e => h (List.mem_cons_of_mem _ e)
+    rw [splitNsAux.eq_3 cur c r (fun _ e _ => hc e), splitNsAux_colonfree r (c :: cur) hr]
+    simp
+
+/-- the text after the last `::` of `a ++ "::" ++ t` is `t`, when `t` has no colon and `a` does not end in one -/
+theorem last_split (t : Str) (ht : ':' ∉ t) : ∀ (a cur : Str), (∀ c, a.getLast? = some c → c ≠ ':') →
+    (splitNsAux (a ++ ':' :: ':' :: t) cur).getLast? = some t
+  | [], cur, _ => by
+    rw [List.nil_append, splitNsAux.eq_2, splitNsAux_colonfree t [] ht]; simp
+  | [c], cur, h => by
+    have hc : c ≠ ':' := h c rfl
+    rw [List.singleton_append, splitNsAux.eq_3 cur c _ (fun _ e _ => hc e)]
+    exact last_split t ht [] (c :: cur) (by simp)
+  | c :: d :: r, cur, h => by
+    have hlast : ∀ x, (d :: r).getLast? = some x → x ≠ ':' := by
+      intro x hx; apply h x; simpa [List.getLast?_cons_cons] using hx
+    by_cases hcd : c = ':' ∧ d = ':'
+    · obtain ⟨rfl, rfl⟩ := hcd
+      have hr : ∀ x, r.getLast? = some x → x ≠ ':' := by
+        intro x hx
+        cases r with
+        | nil => simp at hx
+        | cons e r' => apply hlast x; simpa [List.getLast?_cons_cons] using hx
+      have ih := last_split t ht r [] hr
+      rw [List.cons_append, List.cons_append, splitNsAux.eq_2]
+      cases hs : splitNsAux (r ++ ':' :: ':' :: t) [] with
+      | nil => rw [hs] at ih; simp at ih
+      | cons y ys => rw [hs] at ih; simpa [List.getLast?_cons_cons] using ih
+    · rw [List.cons_append, splitNsAux.eq_3 cur c _ (fun r' e1 e2 => hcd ⟨e1, by
+        simp only [List.cons_append, List.cons.injEq] at e2; exact e2.1⟩)]
+      exact last_split t ht (d :: r) (c :: cur) hlast
+termination_by a => a.length
+
+end TCV.C13NM
+
+namespace TCV.C13NM
+open TCV TCV.Config TCV.Build TCV.BuildNM TCV.Names
+
+/-- path and part name carry no `:`, the path no `#`, the namespace does not end in `:` — true of config files on disk mounted under
+identifier-like namespaces -/
+def Clean (c : Cfg) : Prop :=
+  ':' ∉ c.path ∧ '#' ∉ c.path ∧ (∀ p, c.part = some p → ':' ∉ p) ∧ (∀ n, c.ns = some n → ∀ x, n.getLast? = some x → x ≠ ':')
+
+/-- path, and `#part` when there is one -/
+def body (c : Cfg) : Str :=
+  match c.part with
+  | some p => c.path ++ '#' :: p
+  | none => c.path
+
+theorem body_colonfree (c : Cfg) (h : Clean c) : ':' ∉ body c := by
+  unfold body
+  cases hp : c.part with
+  | none => exact h.1
+  | some p =>
+    intro hm
+    rcases List.mem_append.mp hm with h1 | h1
+    · exact h.1 h1
+    · rcases List.mem_cons.mp h1 with h2 | h2
+      · cases h2
+      · exact h.2.2.1 p hp h2
+
+/-- for a clean config `repr_name_without_namespace` is the path with its `#part` -/
+theorem reprNameNoNs_clean (c : Cfg) (h : Clean c) : reprNameNoNs c = body c := by
+  have hb := body_colonfree c h
+  unfold reprNameNoNs localOf splitNs
+  cases hn : c.ns with
+  | none =>
+    have : c.reprName = body c := by
+      unfold Cfg.reprName body; rw [hn]; cases c.part <;> rfl
+    rw [this, splitNsAux_colonfree _ [] hb]; simp
+  | some n =>
+    have : c.reprName = n ++ ':' :: ':' :: body c := by
+      unfold Cfg.reprName body; rw [hn]; cases c.part <;> simp
+    rw [this, last_split (body c) hb n [] (h.2.2.2 n hn)]; simp
+
+theorem append_sep_inj (s : Char) (a b v w : Str) (ha : s ∉ a) (hb : s ∉ b) (h : a ++ s :: v = b ++ s :: w) : a = b ∧ v = w := by
+  induction a generalizing b with
+  | nil =>
+    cases b with
+    | nil => simp at h; exact ⟨rfl, h⟩
+    | cons y b' =>
+      simp only [List.nil_append, List.cons_append, List.cons.injEq] at h
+      exact absurd (h.1 ▸ List.mem_cons_self ..) hb
+  | cons x a' ih =>
+    cases b with
+    | nil =>
+      simp only [List.nil_append, List.cons_append, List.cons.injEq] at h
+      exact absurd (h.1 ▸ List.mem_cons_self ..) ha
+    | cons y b' =>
+      simp only [List.cons_append, List.cons.injEq] at h
+      obtain ⟨h1, h2⟩ := ih b' (fun e => ha (List.mem_cons_of_mem _ e)) (fun e => hb (List.mem_cons_of_mem _ e)) h.2
+      exact ⟨by rw [h.1, h1], h2⟩
+
+/-- **names are a function of `repr_name_without_namespace`** for clean configs: equal path-and-part texts give equal names -/
+theorem clean_name_determined (a b : Cfg) (ha : Clean a) (hb : Clean b) (h : reprNameNoNs a = reprNameNoNs b) : a.name = b.name := by
+  rw [reprNameNoNs_clean a ha, reprNameNoNs_clean b hb] at h
+  unfold body at h
+  unfold Cfg.name
+  cases hpa : a.part with
+  | none =>
+    cases hpb : b.part with
+    | none => rw [hpa, hpb] at h; simp only at h ⊢; rw [h]
+    | some q =>
+      rw [hpa, hpb] at h; simp only at h
+      exact absurd (h ▸ List.mem_append_right _ (List.mem_cons_self ..)) ha.2.1
+  | some p =>
+    cases hpb : b.part with
+    | none =>
+      rw [hpa, hpb] at h; simp only at h
+      exact absurd (h ▸ List.mem_append_right _ (List.mem_cons_self ..)) hb.2.1
+    | some q =>
+      rw [hpa, hpb] at h; simp only at h ⊢
+      obtain ⟨h1, h2⟩ := append_sep_inj '#' _ _ _ _ ha.2.1 hb.2.1 h
+      rw [h1, h2]
+
+section
+variable (fs : FS) (cfs : CtxFS) (classes : Classes) (fuel : Nat)
+
+/-- **membership in a name-mode MultiChain changes no storage key** (no hypothesis on names left): when the configs of the member
+chains are clean — paths and part names without `:`, paths without `#`, namespaces not ending in `:` — every task of every member has
+the key of its own declaring config -/
+theorem nm_multichain_member_keys_clean (mains : List (Str × Option CtxSrc)) (cs : List BuildNM.Chain)
+    (h : BuildNM.buildMulti fs cfs classes mains fuel = .ok cs)
+    (hclean : ∀ c, MemberCfg fs cfs fuel mains c → Clean c) :
+    ∀ c ∈ cs, ∃ m ∈ mains, ∃ cfgs, IsCfgsOf fs cfs fuel m.1 none m.2 cfgs ∧
+      ∀ t ∈ c.tasks, ∃ cfg ∈ cfgs, ∃ cid ∈ cfg.tasks, ∃ cl, get? cid classes = some cl ∧ t.full = fullName cfg.ns cl.slug ∧
+        t.obj.slug = cl.slug ∧ t.obj.cfgName = cfg.name :=
+  nm_multichain_member_keys fs cfs classes fuel mains cs h
+    (fun a b ha hb hab => clean_name_determined a b (hclean a ha) (hclean b hb) hab)
+
+end
+
+/-- non-vacuity: a clean config (`dir/p.json`, part `a`, namespace `m::k`) and what its `repr_name_without_namespace` is -/
+example : Clean { path := "dir/p.json".toList, part := some "a".toList, ns := some "m::k".toList, data := [], tasks := [], excluded := [], uses := [] } ∧
+    reprNameNoNs { path := "dir/p.json".toList, part := some "a".toList, ns := some "m::k".toList, data := [], tasks := [], excluded := [], uses := [] }
+      = "dir/p.json#a".toList := by
+  refine ⟨⟨by decide, by decide, ?_, ?_⟩, by decide⟩
+  · intro p hp; cases hp; decide
+  · intro n hn; cases hn; intro x hx; cases hx; decide
+
+end TCV.C13NM
